@@ -355,6 +355,19 @@ def rule_PL3(ctx, tier):
         rr.ok("reference count read before the delete transaction")
     else:
         rr.fail("count-after-delete", "delete_pending_appointment does not count the references before opening the delete transaction", where=d.span)
+    # "exactly one of accepted / pending / invalid": an appointment the tower turned down once (503 during its own outage, say) and
+    # accepts when the revocation is notified again is filed as accepted AND stays filed as invalid, on disk and in memory
+    sr = P.bodies.get(PDBM + "store_appointment_receipt")
+    ar = P.bodies.get(WT + "add_appointment_receipt")
+    if sr is None or ar is None:
+        rr.anchor_missing("store_appointment_receipt / add_appointment_receipt")
+    else:
+        disk = any(_sql.classify(st)["kind"] == "delete" and _sql.classify(st).get("table") == "invalid_appointments" and "tower_id" in st.lower() for bb_, st in _sql.body_sql(sr))
+        mem = any("f:invalid_appointments" in og.show(arg_origin(ctx, ar, bb_, 0)) for bb_ in sites_containing(ar, "HashSet", "::remove"))
+        if disk and mem:
+            rr.ok("accepted: the invalid link of that (tower, locator) is dropped on disk and in memory")
+        else:
+            rr.fail("accepted-still-invalid", "storing an appointment receipt leaves the (tower, locator) row of `invalid_appointments` %s: an appointment the tower rejected once and accepts later is reported as accepted and as invalid by `listtowers` / `gettowerinfo`, across restarts, and its body is never released" % ("on disk and in memory" if not disk and not mem else ("on disk" if not disk else "in memory")), where=(sr if not disk else ar).span)
     rr.require_floor(3, "PL3 instances")
     return rr
 
